@@ -11,6 +11,23 @@ var frags = []string{
 	" -- w --", "--x --", "-- x--",
 }
 
+// fragments with Unicode white space (which strings.TrimSpace strips and the byte-wise specification does not model):
+// inputs built from them are judged against the reference implementation only, not by TLC
+var uspaceFrags = []string{
+	"-- ", " --", "\n", "\n", "x", "-- x --", "--  --",
+	"\u00a0", "\u0085", "\u2003", "\u3000", "\u1680", "\u2028", "\ufeff", "\u200b",
+	"-- \u00a0 --", "-- \u00a0go.mod --", "-- go.mod\u3000 --", "-- \u2003a\u2003b\u2003 --", "-- \u0085 --", "-- \ufeffx --",
+}
+
+func randomUspaceInput(r *rand.Rand, maxlen int) []byte {
+	n := r.Intn(maxlen + 1)
+	var b []byte
+	for len(b) < n {
+		b = append(b, uspaceFrags[r.Intn(len(uspaceFrags))]...)
+	}
+	return b
+}
+
 func randomInput(r *rand.Rand, maxlen int) []byte {
 	n := r.Intn(maxlen + 1)
 	var b []byte
